@@ -117,5 +117,100 @@ func propSpecs() map[string]*PropSpec {
 		j("H_C15_email_label", k, fmt.Sprintf("a@ + %d x 'a' + 2 free label bytes (63-character label limit)", k), "quick")
 	}
 	add(c15)
+
+	// ---- C04
+	c04 := &PropSpec{ID: "C04", Level: "model_checking", Assumptions: append([]string{"non-termination is approximated by a per-path budget of 20,000,000 SSA instructions (the longest path on the unchanged tree uses < 200,000); a budget hit is confirmed natively with a 20 s watchdog before it is reported", "stack exhaustion and out-of-memory are outside the claim; nesting depth is bounded by the templates (<= 8)"}, commonAssumptions...), QuickSec: 170, ThoroughSec: 1500,
+		Explanation: "bounded symbolic execution of Parse, NextBlock (one-shot and 1-byte readers) + Rewrite, Render under 18 configurations (3 soft-break modes x IgnoreRaw x {nil, GFM, reject-all}), Walk, and format.Format; any feasible path that panics or exhausts the step budget is a violation, error values are asserted"}
+	for n := int64(1); n <= 3; n++ {
+		c04.Jobs = append(c04.Jobs, JobSpec{Pkg: pkgCM, Harness: "H_C04", Params: []int64{0, n}, Bound: fmt.Sprintf("F(%d)", n), Tier: "quick", Panic: "C04.no-panic", Budget: "C04.terminates", Cert: 16})
+	}
+	c04.Jobs = append(c04.Jobs, JobSpec{Pkg: pkgCM, Harness: "H_C04", Params: []int64{0, 4}, Bound: "F(4)", Tier: "thorough", Panic: "C04.no-panic", Budget: "C04.terminates"})
+	for i := int64(0); i < 27; i++ {
+		t := "quick"
+		if i >= 22 {
+			t = "thorough"
+		}
+		c04.Jobs = append(c04.Jobs, JobSpec{Pkg: pkgCM, Harness: "H_C04", Params: []int64{2, i}, Bound: fmt.Sprintf("C04 template %d (unterminated constructs at end of input, nesting depth 8)", i), Tier: t, Panic: "C04.no-panic", Budget: "C04.terminates"})
+	}
+	for n := int64(1); n <= 3; n++ {
+		c04.Jobs = append(c04.Jobs, JobSpec{Pkg: pkgFmt, Harness: "H_C04_format", Params: []int64{n, 0}, Bound: fmt.Sprintf("format.Format on F(%d)", n), Tier: "quick", Panic: "C04.no-panic", Budget: "C04.terminates"})
+	}
+	c04.Jobs = append(c04.Jobs, JobSpec{Pkg: pkgFmt, Harness: "H_C04_format", Params: []int64{4, 0}, Bound: "format.Format on F(4)", Tier: "thorough", Panic: "C04.no-panic", Budget: "C04.terminates"})
+	for _, i := range tlQuick {
+		c04.Jobs = append(c04.Jobs, JobSpec{Pkg: pkgCM, Harness: "H_C04", Params: []int64{1, int64(i)}, Bound: fmt.Sprintf("TL[%d]", i), Tier: "thorough", Panic: "C04.no-panic", Budget: "C04.terminates"})
+	}
+	add(c04)
+
+	// ---- C07
+	c07 := &PropSpec{ID: "C07", Level: "model_checking", Assumptions: commonAssumptions, QuickSec: 170, ThoroughSec: 1500,
+		Explanation: "bounded symbolic execution of Parse + Render with IgnoreRaw=true (3 soft-break modes) and IgnoreRaw=false on raw-free documents; a strict tokenizer over the symbolic output bytes asserts tag/attribute vocabulary, nesting, quoting and escaping, and the tag/attribute-name skeleton is compared with one computed from the tree alone"}
+	for n := int64(1); n <= 3; n++ {
+		c07.Jobs = append(c07.Jobs, JobSpec{Pkg: pkgCM, Harness: "H_C07", Params: []int64{n, 0}, Bound: fmt.Sprintf("F(%d)", n), Tier: "quick", Cert: 16})
+	}
+	c07.Jobs = append(c07.Jobs, JobSpec{Pkg: pkgCM, Harness: "H_C07", Params: []int64{4, 0}, Bound: "F(4)", Tier: "thorough"})
+	heavyAttr := map[int]bool{5: true, 8: true, 10: true}
+	for i := 0; i < 16; i++ {
+		t := "quick"
+		if heavyAttr[i] {
+			t = "thorough"
+		}
+		c07.Jobs = append(c07.Jobs, JobSpec{Pkg: pkgCM, Harness: "H_C07", Params: []int64{int64(2000 + i), 0}, Bound: fmt.Sprintf("attribute-emission template %d", i), Tier: t})
+	}
+	for _, i := range tlQuick {
+		c07.Jobs = append(c07.Jobs, JobSpec{Pkg: pkgCM, Harness: "H_C07", Params: []int64{int64(1000 + i), 0}, Bound: fmt.Sprintf("TL[%d]", i), Tier: "thorough"})
+	}
+	add(c07)
+
+	// ---- C10
+	c10 := &PropSpec{ID: "C10", Level: "model_checking", Assumptions: append([]string{"conventions pinned by the reference renderer (DESIGN.md §C10): escape sets, attribute order, <br>+LF, verbatim character references, first word of the info string (strings.Fields), close tags offered to FilterTag with their slash"}, commonAssumptions...), QuickSec: 170, ThoroughSec: 1500,
+		Explanation: "bounded symbolic execution of Parse + Render in 6 configurations per filter (3 soft-break modes x IgnoreRaw) x 6 filter predicates, compared byte for byte (one solver query per comparison) with an independent reference renderer that reads the tree through the public API; determinism, purity (the tree and all pre-existing state are frozen during rendering) and the block-join rule are asserted"}
+	fnames := []string{"nil", "GFM", "reject-all", "reject-none", "{xmp}", "{b,script}"}
+	for f := int64(0); f < 6; f++ {
+		for n := int64(1); n <= 2; n++ {
+			c10.Jobs = append(c10.Jobs, JobSpec{Pkg: pkgCM, Harness: "H_C10", Params: []int64{n, f}, Bound: fmt.Sprintf("F(%d), FilterTag=%s", n, fnames[f]), Tier: "quick"})
+		}
+		t := "thorough"
+		if f <= 1 {
+			t = "quick"
+		}
+		c10.Jobs = append(c10.Jobs, JobSpec{Pkg: pkgCM, Harness: "H_C10", Params: []int64{3, f}, Bound: fmt.Sprintf("F(3), FilterTag=%s", fnames[f]), Tier: t})
+	}
+	for i := 0; i < 16; i++ {
+		t := "quick"
+		if heavyAttr[i] {
+			t = "thorough"
+		}
+		c10.Jobs = append(c10.Jobs, JobSpec{Pkg: pkgCM, Harness: "H_C10", Params: []int64{int64(2000 + i), 0}, Bound: fmt.Sprintf("attribute-emission template %d, FilterTag=nil", i), Tier: t})
+	}
+	for _, f := range []int64{1, 2, 4, 5} {
+		for _, i := range []int64{14, 15} {
+			c10.Jobs = append(c10.Jobs, JobSpec{Pkg: pkgCM, Harness: "H_C10", Params: []int64{2000 + i, f}, Bound: fmt.Sprintf("raw-HTML template %d, FilterTag=%s", i, fnames[f]), Tier: "quick"})
+		}
+	}
+	c10.Jobs = append(c10.Jobs, JobSpec{Pkg: pkgCM, Harness: "H_C10", Params: []int64{4, 0}, Bound: "F(4), FilterTag=nil", Tier: "thorough"})
+	add(c10)
+
+	// ---- C17
+	c17 := &PropSpec{ID: "C17", Level: "model_checking", Assumptions: append([]string{"HTML tokenization per the WHATWG data, tag-open, end-tag-open, tag-name, attribute, markup-declaration-open, comment and bogus-comment states; RCDATA/RAWTEXT states are never entered because every raw-text element is rejected by the predicates considered"}, commonAssumptions...), QuickSec: 170, ThoroughSec: 1500,
+		Explanation: "bounded symbolic execution of Parse + Render with and without a predicate on HTML templates with symbolic holes; the filtered output (symbolic bytes) is aligned with the unfiltered one (only '<' -> '&lt;') and tokenised by a WHATWG-state tokenizer that must never emit a start tag the predicate rejects"}
+	pnames := []string{"GFM", "reject-all", "reject-none", "{xmp}", "{x,xmp,script}"}
+	for t := int64(0); t < 17; t++ {
+		tier := "quick"
+		if t >= 12 {
+			tier = "thorough"
+		}
+		for p := int64(0); p < 5; p++ {
+			c17.Jobs = append(c17.Jobs, JobSpec{Pkg: pkgCM, Harness: "H_C17", Params: []int64{t, p}, Bound: fmt.Sprintf("HTML template %d, predicate %s", t, pnames[p]), Tier: tier})
+		}
+	}
+	for p := int64(0); p < 5; p++ {
+		c17.Jobs = append(c17.Jobs, JobSpec{Pkg: pkgCM, Harness: "H_C17_F", Params: []int64{2, p}, Bound: fmt.Sprintf("F(2), predicate %s", pnames[p]), Tier: "quick"})
+		tier := "thorough"
+		if p <= 1 {
+			tier = "quick"
+		}
+		c17.Jobs = append(c17.Jobs, JobSpec{Pkg: pkgCM, Harness: "H_C17_F", Params: []int64{3, p}, Bound: fmt.Sprintf("F(3), predicate %s", pnames[p]), Tier: tier})
+	}
+	add(c17)
 	return m
 }
